@@ -82,7 +82,10 @@ theorem C10_gs3_query_exhausted (cfg : Config) (st : State) (h : wf cfg st = tru
   intro plan out
   obtain ⟨h1, h2⟩ := C10_gs3_query_faulty cfg st h port retries arrival harr plan (by simp [plan, wfPlan, hk]) restQ restF
   have h1' : out.1 = .err (lastError Attempt.error fails) := h1
-  refine ⟨h1', ?_, by simpa [plan, faultySends, Ending.sends] using h2, ?_⟩
+  refine ⟨h1', ?_, by
+    rw [show Gd.sentOf out.2.log = _ from h2]
+    simp [plan, faultySends, sendsWith, Ending.sendsWith]
+    rfl, ?_⟩
   · rw [h1']
     rcases lastError_class fails with e | e <;> rw [e] <;> simp
   · show attemptsOf (Gd.sentOf out.2.log) = _
